@@ -73,6 +73,21 @@ SCOPES = {
     '38': ("the responder (`process_packet` in src/smbus.rs, src/smbus_response.rs and what they call)", OWN),
     '39': ("the decoder (`decode_packet`, `get_length` and their helpers in src/smbus.rs, the length tables in src/mctp_traits.rs, the `From<u8>` tables)", OWN),
     '40': ("src/mctp_traits.rs, src/smbus_proto.rs and src/base_packet.rs together (the packet assembly pipeline)", OWN),
+    # round 6
+    '41': ("`process_packet` and the command dispatch in src/smbus.rs",
+           "a `const` dispatch table of `(CommandCode, fn(..) -> ..)` function pointers searched with `iter().find`, small free functions or "
+           "associated functions as handlers, a function pointer chosen by `match` and called afterwards; keep `unimplemented!()` outcomes as panics"),
+    '42': ("the packet assembly (src/mctp_traits.rs, src/smbus_proto.rs, src/base_packet.rs)",
+           "`const` `Range<usize>` field positions (`const TRANSPORT: Range<usize> = 4..8; buf[TRANSPORT].copy_from_slice(..)`), named offset constants, "
+           "a private `enum Section<'a> { Byte(u8), Bytes(&'a [u8]), .. }` list that is built first and written in a loop, `loop { match it.next() { .. } }` "
+           "and `while i < n` loops instead of `for`, struct destructuring (`let Self { a, b, .. } = self;`), `ref`/`ref mut` patterns"),
+    '43': ("the decoder (`decode_packet`, `get_length`, helpers, length tables)",
+           "a small recursive-descent style: each layer is a function taking `&[u8]` and returning `Option<(Parsed, &[u8])>` with `?`, `split_first`, "
+           "`split_at_checked`/`get(..n)`, nested enums carrying the parsed state, closures stored in variables, a closure returning a closure where it "
+           "removes duplication, multi-byte fields assembled with `u16::from_be_bytes`/`u32::from_be_bytes` and taken apart with shifts"),
+    '44': ("src/smbus_request.rs and src/smbus_response.rs", OWN),
+    '45': ("src/smbus.rs", OWN),
+    '46': ("the whole crate: small, local, independent edits in every file (at least 40 separate hunks)", OWN),
 }
 
 
